@@ -47,15 +47,28 @@ func SequenceList(v Object) (*List, error) {
 func SequenceSet(v Object) (*Set, error) {
 	switch x := v.(type) {
 	case Tuple:
+		if err := Unhashable(x...); err != nil {
+			return nil, err
+		}
 		return NewSetFromItems(x), nil
 	case *List:
+		if err := Unhashable(x.Items...); err != nil {
+			return nil, err
+		}
 		return NewSetFromItems(x.Items), nil
 	default:
 		s := NewSet()
+		var bad error
 		err := Iterate(v, func(item Object) bool {
+			if bad = Unhashable(item); bad != nil {
+				return true
+			}
 			s.Add(item)
 			return false
 		})
+		if err == nil {
+			err = bad
+		}
 		if err != nil {
 			return nil, err
 		}
